@@ -2,6 +2,7 @@ package main
 
 import (
 	"bytes"
+	"regexp"
 	"context"
 	"fmt"
 	"go/types"
@@ -132,7 +133,12 @@ func seqNDecls() string {
 	return sb.String()
 }
 
-func (e *Engine) buildPrelude(solver string) string {
+var reLitName = regexp.MustCompile(`lit_[0-9a-f]{12}`)
+
+// buildPrelude: sorts, functions and axioms every script starts with. Only the string literals that occur in `body` are
+// declared (the literal table is shared by all functions translated in this process; what one script contains must not
+// depend on what else is being verified).
+func (e *Engine) buildPrelude(solver string, body string) string {
 	var sb strings.Builder
 	switch solver {
 	case "z3", "z3-new":
@@ -236,12 +242,20 @@ func (e *Engine) buildPrelude(solver string) string {
 	}
 	// string literals
 	e.mu.Lock()
-	lits := append([]string{}, e.litOrder...)
+	used := map[string]bool{}
+	for _, m := range reLitName.FindAllString(body, -1) {
+		used[m] = true
+	}
+	var lits []string
 	litName := map[string]string{}
-	for _, s := range lits {
-		litName[s] = e.lits[s]
+	for _, s := range e.litOrder {
+		if used[e.lits[s]] {
+			lits = append(lits, s)
+			litName[s] = e.lits[s]
+		}
 	}
 	e.mu.Unlock()
+	sort.Slice(lits, func(i, j int) bool { return litName[lits[i]] < litName[lits[j]] })
 	var names []string
 	for _, s := range lits {
 		n := litName[s]
@@ -285,7 +299,7 @@ func runSolver(solver, file string, timeout time.Duration) solverResult {
 	switch solver {
 	case "z3":
 		cmd = exec.CommandContext(ctx, "z3", fmt.Sprintf("-T:%d", int(timeout.Seconds())+1), file)
-	case "z3-new", "z3-mbqi":
+	case "z3-new", "z3-mbqi", "z3-new-retry":
 		cmd = exec.CommandContext(ctx, "z3-new", fmt.Sprintf("-T:%d", int(timeout.Seconds())+1), file)
 	case "cvc5":
 		cmd = exec.CommandContext(ctx, "cvc5", "--incremental", fmt.Sprintf("--tlimit=%d", timeout.Milliseconds()), file)
